@@ -22,6 +22,10 @@
 #include "util/utf8_icu.cc"
 #include <unicode/unistr.h>
 #include <algorithm>
+#include "preprocess/captive_child.hh"
+#include <signal.h>
+#include <sys/resource.h>
+#include <unistd.h>
 
 static void nat(const char *n, unsigned long long v) { printf("nat %s %llu\n", n, v); }
 
@@ -52,6 +56,26 @@ int main() {
   nat("kBlocks", util::BlockQueue::kBlocks);
   nat("kBlockSize", util::BlockQueue::kBlockSize);
   nat("kMagicSize", util::ReadCompressed::kMagicSize);
+  // preprocess::Wait(child) for children that exit with a code or die of a signal (C11):
+  //   waitexit <code> <Wait()>   /  waitsig <signal> <Wait()>
+  {
+    fflush(stdout);
+    struct rlimit nocore = {0, 0};
+    const int codes[] = {0, 1, 2, 3, 126, 127, 200, 255};
+    for (int c : codes) {
+      pid_t pid = fork();
+      if (pid == 0) _exit(c);
+      printf("waitexit %d %d\n", c, preprocess::Wait(pid));
+      fflush(stdout);
+    }
+    const int sigs[] = {1, 2, 3, 4, 5, 6, 7, 8, 9, 10, 11, 12, 13, 14, 15, 16, 24, 25, 26, 27, 29, 30, 31};
+    for (int sg : sigs) {
+      pid_t pid = fork();
+      if (pid == 0) { setrlimit(RLIMIT_CORE, &nocore); signal(sg, SIG_DFL); kill(getpid(), sg); _exit(77); }
+      printf("waitsig %d %d\n", sg, preprocess::Wait(pid));
+      fflush(stdout);
+    }
+  }
   // Flatten rule tables per language (C19): one line per start character
   //   flat <lang> <startcp> <fallback units csv|-> <nrules> { <rb 0|1> <suffix units csv|-> <to units csv|-> }
   const char *langs[] = {"en", "fr", "de", "es", "cs"};
